@@ -690,7 +690,7 @@ def check_C02(res, tier, seed):
     # reason chains deeper than the recursion limit of the minimiser (up to 700 variables): no learned
     # nogood may exclude a verified solution, Unsatisfiable is wrong while one exists
     planted_part(res, "planted_chain", n(tier, 240, 2400), seed + 1000, tier, adopt=C02_ADOPT,
-                 min_events={"Learned": 500})
+                 min_events={"Learned": 100})
 
 
 def check_C03(res, tier, seed):
